@@ -290,6 +290,7 @@ namespace ip {
 					m_bound_to.address(), m_bound_to.port());
 				p.type = aux::packet::type_t::error;
 				p.ec = boost::system::error_code(error::connection_reset);
+				p.channel = incoming;
 				p.overhead = 28;
 				p.hops = incoming->hops[0];
 
